@@ -25,7 +25,7 @@ REPO = os.environ.get("YMQ_REPO", "/repo")
 ROOT = os.path.dirname(os.path.dirname(os.path.abspath(__file__)))
 
 THEOREMS = ["Ymq.C16." + t for t in (
-    "ecm_cover ecm128_cover pp1_cover pm1_cover ecm_grid_exact ecm128_grid_exact pp1_grid_exact pm1_grid_exact ecm_hits_exact pp1_hits_exact pm1_hits_exact ecm_nothing_above pp1_nothing_above pm1_nothing_above pm1_hit chirpz_coeff pp1_hit ecm_hit chebyshev_recurrence chebyshev_spec exp_modn_spec exp_modn_large_spec gcd_factors_prod rho64_proper guard_proper pm1_found pp1_found ecm_found rows_ok pm1_degree pm1_rows_eff pm1_poly_rows reported_le_effective_ecm_counter reported_le_effective_pp1_counter reported_le_effective_pm1_counter ecm_badRows pp1_badRows pm1_badRows bad_rows_miss_a_value reported_le_effective_partial_ecm reported_le_effective_partial_pp1 reported_le_effective_partial_pm1 ecm128_arms_exact walk_reported_counter walk_reported_arms arms_contiguous_ecm arms_contiguous_ecm128 arms_contiguous_pp1 arms_d1_primes_below_b1 ecm_arm_covers ecm128_arm_covers").split()]
+    "ecm_cover ecm128_cover pp1_cover pm1_cover ecm_grid_exact ecm128_grid_exact pp1_grid_exact pm1_grid_exact ecm_hits_exact pp1_hits_exact pm1_hits_exact ecm_nothing_above pp1_nothing_above pm1_nothing_above pm1_hit chirpz_coeff pp1_hit ecm_hit chebyshev_recurrence chebyshev_spec exp_modn_spec exp_modn_large_spec gcd_factors_prod rho64_proper guard_proper cumulative_products_chain check_gcd_factors_inv pm1_result_proper shrink_ring_consistent check_gcd_factor_proper rho_impl_proper ynorm_spec ynorm_compare pm1base_full_stage1 pm1base_cover pm1base_hit pm1_found pp1_found ecm_found rows_ok pm1_degree pm1_rows_eff pm1_poly_rows reported_le_effective_ecm_counter reported_le_effective_pp1_counter reported_le_effective_pm1_counter ecm_badRows pp1_badRows pm1_badRows bad_rows_miss_a_value reported_le_effective_partial_ecm reported_le_effective_partial_pp1 reported_le_effective_partial_pm1 ecm128_arms_exact walk_reported_counter walk_reported_arms arms_contiguous_ecm arms_contiguous_ecm128 arms_contiguous_pp1 arms_d1_primes_below_b1 ecm_arm_covers ecm128_arm_covers").split()]
 HYPOTHESES = [
     "C17 (stage-1 exponent coverage): the exponent E accumulated by stage 1 is divisible by every prime power below B1 "
     "(and by every prime <= B1 for P-1/P+1); enters pm1_hit / pp1_hit / ecm_hit as the premise `group order of p divides E*m`",
@@ -52,10 +52,10 @@ UNMODELLED = [
     "stage-1 exponent streams (SmoothBase, pm1 blocks): property C17, premise of the *_hit theorems",
     "ZmodN arithmetic (C07), curve formulas and addition chains (C15), Poly::roots_eval / convolve_modn_ntt (C10), big_gcd (C09): "
     "taken as exact; the constructed-input runs exercise them end to end",
-    "rho_impl, PM1Base::factor, check_gcd_factor(s) wrappers: oracle-checked only (no model, no theorem)",
-    "y-normalisation of ecm_curve (two-pass prefix/suffix products of the z coordinates) and the quadratic vs roots_eval arms: "
-    "not modelled separately; every (giant, baby) pair is taken to be compared through the affine y coordinate (exercised end to end "
-    "by the constructed-order ECM runs on both arms: d1 < 4000 and d1 >= 4000 rows)",
+    "PM1Base::factor: stage-2 exponent set and stage-1 block count modelled; the large-prime table is a hypothesis of pm1base_cover "
+    "(checked on the real table by the request s2_pm1base_data); outcome compared with the model for budgets >= 1024 only",
+    "y-normalisation of ecm_curve: modelled (ynorm) and proved (ynorm_spec, ynorm_compare); tied to the code by the translator's "
+    "pattern check of the two loops in both files and end to end by the constructed-order ECM runs (no separate request: the block is inline)",
     "bad-row prime witnesses: that the first missed value listed for a bad row is prime is checked by the translator and the oracle "
     "(Miller-Rabin), not in Lean; Lean proves it is not a grid value and does not divide one",
 ]
@@ -436,7 +436,7 @@ def arms():
 
 
 def reach(tier, extended):
-    return (2.0e9 if tier == "quick" else 4.0e10) * (4 if extended else 1)
+    return (7.0e8 if tier == "quick" else 4.0e10) * (4 if extended else 1)
 
 
 def constructed_cases(tier, rng, extended=False):
@@ -640,6 +640,11 @@ def divides_stage1(s_, b1):
     """s_ divides the stage-1 exponent of P-1 / P+1 for b1: every prime <= b1, every prime power < b1"""
     m = s_
     for r in small_primes(b1):
+        if m == 1:
+            return True
+        if r * r > m:
+            # m is prime (or 1): a single prime <= b1 always divides the exponent
+            return m <= b1 and is_prime(m)
         cap = r
         while cap * r < b1:
             cap *= r
@@ -652,10 +657,37 @@ def divides_stage1(s_, b1):
     return m == 1
 
 
+def order_of_2(p, b1, l):
+    """multiplicative order of 2 modulo the prime p, given that (p - 1) / l is b1-smooth; None otherwise"""
+    m = (p - 1) // l
+    fs = [l]
+    for r in small_primes(b1):
+        if m == 1:
+            break
+        if r * r > m:
+            fs.append(m)
+            m = 1
+            break
+        if m % r == 0:
+            fs.append(r)
+            while m % r == 0:
+                m //= r
+    if m != 1 or any(f > max(b1, l) for f in fs):
+        return None
+    o = p - 1
+    for f in fs:
+        while o % f == 0 and pow(2, o // f, p) == 1:
+            o //= f
+    return o
+
+
 def pm1_annotation_ok(case):
+    """p | n prime, ord_p(2) = s*l with l a prime > b1 and s dividing the stage-1 exponent"""
     n, b1, b2, p, l = (int(v) for v in case.args[:5])
-    return (n % p == 0 and is_prime(p) and is_prime(l) and l > b1 and (p - 1) % l == 0 and divides_stage1((p - 1) // l, b1)
-            and pow(2, (p - 1) // l, p) != 1)
+    if not (n % p == 0 and is_prime(p) and is_prime(l) and l > b1 and (p - 1) % l == 0):
+        return False
+    o = order_of_2(p, b1, l)
+    return o is not None and o % l == 0 and divides_stage1(o // l, b1)
 
 
 def pp1_annotation_ok(case):
@@ -674,6 +706,118 @@ def ecm_annotation_ok(case):
         return False
     o = point_order(x, y, a, p)
     return o is not None and split_order(o, b1) == l and is_prime(l)
+
+
+# ---------------------------------------------------------------- large B1: the end of the stage-1 exponent stream
+
+
+def arm_table(fn):
+    """[(lo_bits, hi_bits, b1, b2)] of pm1_quick / pm1_only (own reading of the source)"""
+    src_ = re.sub(r"//[^\n]*", "", open(os.path.join(REPO, "src/pollard_pm1.rs")).read())
+    body = src_[src_.index(f"pub fn {fn}("):]
+    body = body[:body.index("\n}\n")]
+    out = []
+    for lo, hi, a, b in re.findall(r"(\d+)\.\.(?:=(\d+))? => pm1_impl\(n, ([0-9_ <]+), ([0-9.e]+), v\)", body):
+        a = a.replace("_", "")
+        if "<<" in a:
+            x, y = a.split("<<")
+            a = int(x) << int(y)
+        out.append((int(lo), int(hi) if hi else 1024, int(a), int(round(float(b)))))
+    return out
+
+
+def big_q(rng, bits, qbits=62):
+    """prime q with `bits` bits (or one less), q - 1 = 2*k*Q, Q a prime of about qbits bits (above every B2 in reach), Q | ord_q(2)"""
+    qbits = max(8, min(qbits, bits - 8))
+    for _ in range(200):
+        Q = next_prime(rng.getrandbits(qbits) | (1 << (qbits - 1)))
+        for _ in range(400):
+            k = rng.randrange(1 << max(0, bits - qbits - 3), 1 << max(1, bits - qbits - 1))
+            q = 2 * k * Q + 1
+            if q.bit_length() in (bits - 1, bits) and is_prime(q) and pow(2, (q - 1) // Q, q) != 1:
+                return q
+    return None
+
+
+def end_of_stream_parts(b1):
+    """prime powers that stage 1 handles last / at the limit: the largest prime <= b1, the one before, the largest
+    power of 2 and of 3 below b1"""
+    r1 = prev_prime(b1 + 1)
+    r2 = prev_prime(r1)
+    p2 = 2
+    while p2 * 2 < b1:
+        p2 *= 2
+    p3 = 3
+    while p3 * 3 < b1:
+        p3 *= 3
+    return [("last-prime", 2 * r1), ("prev-prime", 2 * r2), ("pow2", 2 * p2), ("pow3", 2 * p3)]
+
+
+def make_end_prime(rng, part, l, tries=3000):
+    """p prime, p - 1 = part * s * l with a small s; every prime power of `part` exactly divides the order of 2"""
+    for s_ in range(1, tries):
+        if math.gcd(s_, part) != 1 and part % 2 == 0 and s_ % 2 == 0:
+            continue                                     # keep the power of 2 exact
+        if s_ % 3 == 0 and part % 3 == 0:
+            continue
+        p = part * s_ * l + 1
+        if not is_prime(p):
+            continue
+        ok = pow(2, (p - 1) // l, p) != 1
+        m = part
+        if m % 4 == 0:
+            # 2 is a square modulo p = 1 mod 8: the order of 2 has one factor 2 less than p - 1; `part` = 2 * 2^k
+            ok = ok and pow(2, (p - 1) // 4, p) != 1
+        while m % 2 == 0:
+            m //= 2
+        if m % 3 == 0:
+            ok = ok and pow(2, (p - 1) // 3, p) != 1
+            while m % 3 == 0:
+                m //= 3
+        if m > 1:
+            ok = ok and pow(2, (p - 1) // m, p) != 1
+        if ok and divides_stage1(s_, 1000):
+            return p
+    return None
+
+
+def big_b1_cases(tier, rng, extended=False):
+    direct = [(65536, 8000000), (262144, 300000000), (500000, 300000000), (1 << 20, 1200000000)]
+    bits_max = 310 if tier == "quick" else 340
+    if tier != "quick":
+        direct += [(2000000, 5000000000), (4 << 20, 8000000000), (7000000, 18000000000)]
+    for (b1, b2) in direct:
+        lab, d1, d2 = nearest("pm1", b2)
+        eff = pm1_eff(d1, d2)
+        for name, part in end_of_stream_parts(b1):
+            for l in ([prev_prime(eff // 3)] if tier == "quick" and not extended else [prev_prime(eff // 3), prev_prime(eff + 1), next_prime(b1)]):
+                p = make_end_prime(rng, part, l)
+                if p:
+                    yield Case(f"s2_pm1 {p * big_q(rng, 96)} {b1} {b2} {p} {l}", tag=f"bigb1/{name}")
+    for fn, op in (("pm1_only", "s2_pm1_only"), ("pm1_quick", "s2_pm1_quick")):
+        for (lo, hi, b1, b2) in arm_table(fn):
+            if lo > bits_max or b1 < 10000 or b1 > (1 << 20 if tier == "quick" else 8000000) or \
+                    b2 > (1.3e9 if tier == "quick" else 2e10):
+                continue
+            if b2 <= THRESHOLD:
+                continue
+            lab, d1, d2 = nearest("pm1", b2)
+            eff = pm1_eff(d1, d2)
+            for name, part in end_of_stream_parts(b1)[:1 if tier == "quick" else 4]:
+                l = prev_prime(rng.randrange(eff // 4, eff))
+                p = make_end_prime(rng, part, l)
+                if not p:
+                    continue
+                want = max(lo + 1, min(hi, p.bit_length() + 70))
+                qb = want - p.bit_length() + 1
+                if qb - 8 < (8 * b2).bit_length():
+                    continue                                 # no room for a cofactor that is safely out of reach
+                q = big_q(rng, qb)
+                if q is None:
+                    continue
+                n = p * q
+                if lo <= n.bit_length() <= hi:
+                    yield Case(f"{op} {n} {p} {l}", tag=f"bigb1/{fn}/{name}")
 
 # ---------------------------------------------------------------- helper routines
 
@@ -759,6 +903,42 @@ def gcdf_cases(rng, N):
             yield Case(f"s2_gcdf {n} {','.join(map(str, vals))}", o=False, profiles=["chk"], tag="gcdf")
 
 
+def cgf_cases(rng, N):
+    """check_gcd_factors (state = factors found so far, reduced modulus, values) and ecm's check_gcd_factor"""
+    pool = [3, 5, 7, 11, 13, 1009, 65537, 1000003, 2 ** 31 - 1, 2 ** 61 - 1, 1000000007, 998244353, 2 ** 89 - 1, 2 ** 107 - 1]
+    for i in range(N):
+        ps = rng.sample(pool, rng.randrange(2, 6))
+        if rng.randrange(5) == 0:
+            ps.append(ps[0])
+        n = 1
+        for p in ps:
+            n *= p
+        nfound = rng.randrange(0, len(ps) - 1)
+        found, rest = ps[:nfound], ps[nfound:]
+        nred = 1
+        for p in rest:
+            nred *= p
+        length = rng.choice([1, 2, 3, 4, 5, 8, 9, 17])
+        steps = sorted(rng.randrange(0, length + 1) for _ in rest)      # step = length: never caught
+        vals = []
+        for j in range(length):
+            g = 1
+            for p, st in zip(rest, steps):
+                if st <= j:
+                    g *= p
+            junk = rng.getrandbits(rng.choice([1, 64, 200])) | 1
+            while math.gcd(junk, nred) != 1:
+                junk += 2
+            vals.append(g * junk % (1 << 500) if math.gcd(g * junk % (1 << 500), nred) == g else g)
+        if rng.randrange(8) == 0:
+            vals[-1] = 0                                           # everything at once: gcd = nred
+        chain = is_chain(nred, vals)
+        kw = {} if chain else {"o": False, "profiles": ["chk"]}
+        yield Case(f"s2_cgf {n} {','.join(map(str, found)) or '-'} {nred} {','.join(map(str, vals))}", tag="cgf", **kw)
+        if nfound == 0:
+            yield Case(f"s2_cgf1 {n} {','.join(map(str, vals))}", tag="cgf1", **kw)
+
+
 def is_chain(n, vals):
     gs = [math.gcd(n, v) for v in vals]
     return all(gs[j] % gs[i] == 0 for i in range(len(gs)) for j in range(i, len(gs)))
@@ -786,7 +966,7 @@ def rho_cases(rng, N):
         yield Case(f"s2_rho64 {n} {rng.randrange(1, 10)} {rng.choice([2, 128, 512, 700, 2048, 4096])}", tag="rho64")
         if i % 8 == 0:
             yield Case(f"s2_rho_impl {n * rng.choice([1, 2 ** 61 - 1])} {rng.randrange(1, min(n, 50))} {rng.choice([64, 500])}",
-                       k=False, tag="rho_impl")
+                       tag="rho_impl")
 
 
 _LARGES = None
@@ -833,7 +1013,12 @@ def pm1base_cases(rng, N):
         if n >= 1 << 63 or p == qq:
             continue
         made += 1
-        yield Case(f"s2_pm1base {n} {budget} {p} {l}", k=False, tag="pm1base")
+        j = larges_index(l)
+        if j is None:
+            continue
+        # the model predicts the outcome when the whole of stage 1 runs (budget >= 1024)
+        yield Case(f"s2_pm1base {n} {budget} {p} {l} {j}", k=budget >= 1024, tag="pm1base")
+    yield Case("s2_pm1base_data", k=False, tag="pm1base")
 
 
 def table_cases():
@@ -868,8 +1053,10 @@ def cases(tier, rng, extended=False):
     yield from table_cases()
     yield from sel_cases(rng, 60 * scale)
     yield from constructed_cases(tier, rng, extended)
+    yield from big_b1_cases(tier, rng, extended)
     yield from exp_cases(rng, 400 * scale)
     yield from gcdf_cases(rng, 300 * scale)
+    yield from cgf_cases(rng, 150 * scale)
     yield from rho_cases(rng, 250 * scale)
     yield from pm1base_cases(rng, 300 * scale)
     yield from ecm_search(rng, (600 if tier == "quick" else 120000) * (3 if extended else 1), per_class=2 if tier == "quick" else 16)
@@ -926,6 +1113,12 @@ def required(case):
     if op == "s2_pm1":
         n, b1, b2, p, l = (int(x) for x in a[:5])
         return n, p, covered("pm1", b1, b2, l)
+    if op in ("s2_pm1_only", "s2_pm1_quick"):
+        n, p, l = (int(x) for x in a[:3])
+        for (lo, hi, b1, b2) in arm_table(op[3:]):
+            if lo <= n.bit_length() <= hi:
+                return n, p, covered("pm1", b1, b2, l)
+        return n, p, False
     if op == "s2_pp1":
         n, seed, b1, b2, p, l = (int(x) for x in a[:6])
         return n, p, covered("pp1", b1, b2, l)
@@ -984,6 +1177,19 @@ def oracle(case, ans):
             _dyn_bad.add(f"stage2-label:pm1walk:{lab}:{b2}")
             return (f"pm1_impl(b2 = {b2}) reports B2 = {lab} but the prime walk stops at the first prime above {b2}")
         return None
+    if op in ("s2_pm1_only", "s2_pm1_quick"):
+        n, p, l = (int(x) for x in a[:3])
+        msg = check_split(n, ans)
+        if msg:
+            return msg
+        n, p, must = required(case)
+        arm = [t for t in arm_table(op[3:]) if t[0] <= n.bit_length() <= t[1]]
+        if not arm or not pm1_annotation_ok(Case(f"s2_pm1 {n} {arm[0][2]} {arm[0][3]} {p} {l}")):
+            return "test construction error: the claimed order structure does not check"
+        r = parse_split(ans)
+        if must and not (r is not None and (p in r[0] or r[1] == p)):
+            return f"p = {p} (p - 1 = (part of the stage-1 exponent for B1 = {arm[0][2]}) * {l}) was not separated by {op[3:]}"
+        return None
     if op in ("s2_pm1", "s2_pp1", "s2_ecm", "s2_ecm128"):
         n = int(a[0])
         msg = check_split(n, ans, pair=op in ("s2_ecm", "s2_ecm128"))
@@ -1000,12 +1206,22 @@ def oracle(case, ans):
             if must and not found:
                 return f"p = {p} (order = smooth * {a[-1]}, covered by the reported bounds) was not separated"
         return None
+    if op == "s2_pm1base_data":
+        # the table PM1Base::new builds meets the hypotheses of theorem pm1base_cover
+        want = "503 65536 true true"
+        t = ans.split(" ")
+        got = f"{t[0]} {t[1]} {t[3]} {t[4]}" if len(t) == 6 else ans
+        if got != want or int(t[2]) > 128:
+            return f"PM1Base large-prime table: expected first 503, 65536 entries, odd, increasing, gaps <= 128; got {ans}"
+        return None
     if op == "s2_pm1base":
         n, budget, p, l = (int(v) for v in a[:4])
         msg = check_split(n, ans, pair=True)
         if msg:
             return msg
         j = larges_index(l)
+        if len(a) > 4 and (j is None or int(a[4]) != j or n % p or (p - 1) % l or pow(2, (p - 1) // l, p) == 1):
+            return "test construction error: index of the large prime / order structure does not check"
         if budget >= 1024 and j is not None and j < budget - 1000 and ans == "none":
             return f"p = {p} (p - 1 = small part * {l}, large prime number {j} < budget - 1000) was not found"
         return None
@@ -1044,6 +1260,44 @@ def oracle(case, ans):
             if not any(inc % f == 0 for inc in incs[1:]):
                 return f"factor {f} merges prime factors caught at different steps (step increments {[i for i in incs[1:] if i > 1][:6]})"
         return None
+    if op == "s2_cgf":
+        n, nred = int(a[0]), int(a[2])
+        f0 = [] if a[1] == "-" else [int(x) for x in a[1].split(",")]
+        vals = [int(x) for x in a[3].split(",")]
+        t = ans.split(" ")
+        if len(t) != 4 or t[0] not in ("true", "false"):
+            return f"no answer ({ans})"
+        f1 = [] if t[1] == "-" else [int(x) for x in t[1].split(",")]
+        nred1 = int(t[2])
+        v1 = [int(x) for x in t[3].split(",")]
+        prod = nred1
+        for f in f1:
+            prod *= f
+        if prod != n:
+            return "factors * nred != n after check_gcd_factors"
+        if f1[:len(f0)] != f0 or any(f <= 1 for f in f1) or n in f1[len(f0):]:
+            return "recorded factors changed / trivial / equal to n"
+        g0, g1 = math.gcd(nred, vals[0]), math.gcd(nred, vals[-1])
+        new = 1
+        for f in f1[len(f0):]:
+            new *= f
+        if new != 1 and new * g0 != g1:
+            return "new factors do not multiply to gcd_last / gcd_first"
+        if new == 1 and g1 // g0 not in (1, n):
+            return "a non-trivial gcd increment was dropped"
+        if t[0] == "false" and v1 != [vals[-1]]:
+            return "value list not cut down to its last element"
+        if t[0] == "false" and (nred1 == 1 or (new != 1 and gen.is_prime(nred1))):
+            return "run not stopped although the cofactor is 1 or prime"
+        return None
+    if op == "s2_cgf1":
+        n = int(a[0])
+        vals = [int(x) for x in a[1].split(",")]
+        q = math.gcd(n, vals[-1]) // math.gcd(n, vals[0])
+        if ans == "none":
+            return None if q in (1, n) else "a proper factor was available but none returned"
+        d = int(ans.split(" ")[1]) if ans.startswith("some ") else 0
+        return None if 1 < d < n and n % d == 0 and q % d == 0 else "returned value is not a proper divisor caught by the values"
     if op == "s2_rho64":
         return check_split(int(a[0]), ans, pair=True)
     if op == "s2_rho_impl":
@@ -1095,6 +1349,10 @@ def klass(case, ans):
     op = case.op
     tag = case.tag or ""
     short = ans.split(" ")[0] if ans else ""
+    if op in ("s2_pm1_only", "s2_pm1_quick"):
+        return f"{op}/bits{(int(case.args[0]).bit_length() + 39) // 40 * 40}/{tag.split('/')[-1]}/{short}"
+    if op == "s2_pm1" and tag.startswith("bigb1"):
+        return f"s2_pm1/B1={case.args[1]}/{tag.split('/')[-1]}/{short}"
     if op in ("s2_pm1", "s2_pp1", "s2_ecm", "s2_ecm128") and len(case.args) >= 5:
         req = required(case)
         cov = "covered" if req and req[2] else "outside"
